@@ -203,6 +203,42 @@ def check_equivariance(scn, rng, ref_cache):
     return out
 
 
+def check_layout_invariance(scn, ref_cache):
+    """O9: the result under the scenario's dimension order (and its secondary rasters' own dim
+    orders) equals, matched by dimension NAME, the result under the canonical (time, y, x) layout."""
+    from . import runner
+
+    ref, ref_exc = ref_cache["ref"]
+    if ref is None or scn["op"] in ("zonal_mean", "dekad"):
+        return []
+    canon = dict(scn)
+    canon["layout"] = ["time", "y", "x"]
+    canon["secondary_order"] = {k: "yx" for k in scn.get("secondary", {})}
+    if canon["layout"] == scn["layout"] and all(v in (None, "yx") for v in (scn.get("secondary_order") or {}).values()):
+        return []
+    if scn["op"] == "autocorr":
+        # the time-first special path names/orders its output itself; still must agree by name
+        pass
+    cref, cexc, _ = runner.eager_reference(canon)
+    if cexc is not None:
+        return [("layout-invariance", f"canonical (time,y,x) layout raised {type(cexc).__name__}: {str(cexc)[:160]} while layout {scn['layout']} did not")]
+    out = []
+    if set(cref) != set(ref):
+        return [("layout-invariance", f"variables differ between layouts: {sorted(ref)} vs {sorted(cref)}")]
+    for k, r in ref.items():
+        c = cref[k]
+        if set(r["dims"]) != set(c["dims"]):
+            out.append(("layout-invariance", f"{k}: dims {r['dims']} under layout {scn['layout']} vs {c['dims']} under (time,y,x)"))
+            continue
+        perm = [c["dims"].index(d) for d in r["dims"]]
+        cv = np.transpose(c["values"], perm) if perm else c["values"]
+        if r["dtype"] != c["dtype"]:
+            out.append(("layout-invariance", f"{k}: dtype {r['dtype']} vs {c['dtype']}"))
+        elif not S.values_equal(np.ascontiguousarray(r["values"]), np.ascontiguousarray(cv)):
+            out.append(("layout-invariance", f"{k}: values under layout {scn['layout']} / secondary order {scn.get('secondary_order')} differ from the (time,y,x) result matched by dimension name"))
+    return out
+
+
 def check_real_schedulers(scn, ref_cache):
     """O4 cross-check with dask's real synchronous and threaded schedulers (warm kernels)."""
     import dask
@@ -396,7 +432,7 @@ def job_op(job):
                 {"workload": "A", "key": key, "scenario": _scn_summary(scn), "config": cfg, "tape_head": rr.tape[:40], "tape_len": len(rr.tape), "steps": rr.steps, "tasks": rr.ntasks, "outcome": rr.outcome, "digest": rr.digest}
             )
         # O5 on a sample of runs (pure, but part of the property's statement)
-        if not rr.violations and rng.random() < 0.25 and not scn.get("time_chunks"):
+        if not rr.violations and rng.random() < 0.5 and not scn.get("time_chunks"):
             try:
                 ev = check_equivariance(scn, rng, cache)
             except Exception as e:  # noqa: BLE001
@@ -404,10 +440,17 @@ def job_op(job):
                 ev = []
             agg.bump("probes", "equivariance_checked")
             rr.violations.extend(ev)
+            try:
+                lv = check_layout_invariance(scn, cache)
+            except Exception as e:  # noqa: BLE001
+                agg.d["harness"].append(f"{key}: layout-invariance: {type(e).__name__}: {e}")
+                lv = []
+            agg.bump("probes", "layout_invariance_checked")
+            rr.violations.extend(lv)
         if rr.violations:
 
             def minimiser(vclass, budget, scn=scn, cfg=cfg, rr=rr):
-                if vclass == "pixel-equivariance":
+                if vclass in ("pixel-equivariance", "layout-invariance"):
                     return None
                 mcache = {}
 
@@ -540,6 +583,11 @@ def replay_file(path):
     else:
         print(f"unknown workload {wl}")
         return 2
+    if wl == "A" and want == "layout-invariance":
+        cache = {}
+        ref, ref_exc, _ = runner.eager_reference(payload["scenario"])
+        cache["ref"] = (ref, ref_exc)
+        rr.violations.extend(check_layout_invariance(payload["scenario"], cache))
     if wl == "A" and want == "pixel-equivariance":
         cache = {}
         ref, ref_exc, _ = runner.eager_reference(payload["scenario"])
